@@ -146,6 +146,26 @@ def _print_latex(F, outputfile, split_every=-1, compact=True):
 
 
 
+class _ReplacingWriter:
+    """Write to a text stream that may be unable to encode some characters
+
+    The standard output of a process is not always UTF-8 (e.g. in the
+    C locale). Characters it cannot represent are replaced, instead
+    of aborting with a half written document.
+    """
+
+    def __init__(self, stream):
+        self.stream = stream
+
+    def write(self, text):
+        try:
+            return self.stream.write(text)
+        except UnicodeEncodeError:
+            encoding = getattr(self.stream, 'encoding', None) or 'ascii'
+            text = text.encode(encoding, errors='replace').decode(encoding)
+            return self.stream.write(text)
+
+
 def to_latex_document(F, fileorname, export_header=True, extra_text=""):
     """Output a LaTeX document describing the CNF formula
 
@@ -166,7 +186,7 @@ def to_latex_document(F, fileorname, export_header=True, extra_text=""):
 
     # fileorname is an actual file name
     if fileorname is None:
-        output = sys.stdout
+        output = _ReplacingWriter(sys.stdout)
     elif isinstance(fileorname, str):
         with open(fileorname, 'w', encoding='utf-8') as filehandle:
             to_latex_document(F, filehandle,
@@ -174,7 +194,7 @@ def to_latex_document(F, fileorname, export_header=True, extra_text=""):
                               extra_text=extra_text)
             return
     else:
-        output = fileorname
+        output = _ReplacingWriter(fileorname)
 
     clauses_per_page = 35
 
